@@ -81,7 +81,7 @@ pred wmInv(wm) := wm.lastSentWatermark <= wm.currentWatermark && wm.maxEventTime
   && (wm.maxOutOfOrderness >= 0 && !zero(wm.maxEventTime) && wm.idleTimeout <= 0 ==> zero(wm.currentWatermark) || wm.currentWatermark <= wm.maxEventTime - wm.maxOutOfOrderness)
 
 func (*Watermark).sendWatermarkLocked
-  props C02 C08 C10
+  props C02 C08 C10 C01
   held wm.mu
   option channel_events
   requires wm.lastSentWatermark <= wm.currentWatermark
@@ -135,7 +135,9 @@ immutable TumblingWindow: config, size
 monitor TumblingWindow.mu inv twInv
 monitor TumblingWindow.mu inv twNoStranded
 
-pred twInv(tw) := tw.size > 0
+pred twInv(tw) := tw.size > 0 && twOpenOK(tw)
+// a fired window kept for late rows stays open until its own end plus the allowance
+pred twOpenOK(tw) := forallv(k, "", dom(tw.triggeredWindows, k) ==> tw.triggeredWindows[k] != nil && tw.triggeredWindows[k].slot != nil && tw.triggeredWindows[k].slot.End != nil && tw.triggeredWindows[k].closeTime == *tw.triggeredWindows[k].slot.End + tw.config.AllowedLateness)
   && (tw.initialized ==> tw.currentSlot != nil)
   && (!tw.initialized ==> len(tw.data) == 0)
   && (tw.currentSlot != nil ==> slotOK(tw.currentSlot, tw.size))
@@ -279,7 +281,9 @@ guarded_by SlidingWindow.mu: data, currentSlot, initialized, triggeredWindows, c
 immutable SlidingWindow: config, size, slide
 monitor SlidingWindow.mu inv swInv
 
-pred swInv(sw) := sw.size > 0 && sw.slide > 0
+pred swInv(sw) := sw.size > 0 && sw.slide > 0 && swOpenOK(sw)
+// a fired window kept for late rows stays open until its own end plus the allowance
+pred swOpenOK(sw) := forallv(k, "", dom(sw.triggeredWindows, k) ==> sw.triggeredWindows[k] != nil && sw.triggeredWindows[k].slot != nil && sw.triggeredWindows[k].slot.End != nil && sw.triggeredWindows[k].closeTime == *sw.triggeredWindows[k].slot.End + sw.config.AllowedLateness)
   && (sw.initialized ==> sw.currentSlot != nil)
   && (sw.currentSlot != nil ==> slotOK(sw.currentSlot, sw.size))
   && (sw.currentSlot != nil ==> divides(sw.slide, *sw.currentSlot.Start))
